@@ -1,5 +1,5 @@
+import calendar
 import datetime
-import yearfrac
 from dateutil.relativedelta import relativedelta
 from dateutil import rrule
 
@@ -371,6 +371,28 @@ def _days_30_360(start_date, end_date, european):
         + (day2 - day1))
 
 
+def _actual_year_length(start_date, end_date):
+    """Length of the year Excel divides by on the actual/actual basis."""
+    year1, year2 = start_date.year, end_date.year
+    within_a_year = year1 == year2 or (
+        year1 + 1 == year2
+        and (start_date.month, start_date.day)
+        >= (end_date.month, end_date.day))
+    if not within_a_year:
+        # Average length of the calendar years the period touches.
+        lengths = [
+            366 if calendar.isleap(year) else 365
+            for year in range(year1, year2 + 1)]
+        return sum(lengths) / len(lengths)
+    if year1 == year2:
+        return 366 if calendar.isleap(year1) else 365
+    for year in (year1, year2):
+        if calendar.isleap(year) and start_date <= datetime.datetime(
+                year, 2, 29) <= end_date:
+            return 366
+    return 365
+
+
 @xl.register()
 @xl.validate_args
 def YEARFRAC(
@@ -402,7 +424,9 @@ def YEARFRAC(
     if basis == 0:  # US 30/360
         return _days_30_360(start_date, end_date, european=False) / 360
     elif basis == 1:  # Actual/actual
-        return yearfrac.yearfrac(start_date, end_date, 'act_afb')
+        return (
+            (end_date - start_date).days
+            / _actual_year_length(start_date, end_date))
     elif basis == 2:  # Actual/360
         return (end_date - start_date).days / 360
     elif basis == 3:  # Actual/365
